@@ -118,6 +118,21 @@ static void damage_header(const std::string &path, const std::string &defect) {
     else if (defect == "badformat") set_str_attr(root, "format", "xin");
     else if (defect == "noversion") H5Adelete(root, "version");
     else if (defect == "noid") H5Adelete(root, "id");
+    else if (defect.compare(0, 4, "fmt=") == 0) set_str_attr(root, "format", dec_str(defect.substr(4)));
+    else if (defect.compare(0, 4, "ver=") == 0) {
+        std::vector<int> v;
+        std::string cur;
+        for (char ch : defect.substr(4) + ".") {
+            if (ch == '.') { v.push_back(static_cast<int>(dec_int(cur))); cur.clear(); } else cur.push_back(ch);
+        }
+        if (H5Aexists(root, "version") > 0) H5Adelete(root, "version");
+        hsize_t dims[1] = { v.size() };
+        hid_t sp = H5Screate_simple(1, dims, nullptr);
+        hid_t at = H5Acreate2(root, "version", H5T_STD_I32LE, sp, H5P_DEFAULT, H5P_DEFAULT);
+        H5Awrite(at, H5T_NATIVE_INT, v.data());
+        H5Aclose(at);
+        H5Sclose(sp);
+    }
     else { H5Gclose(root); H5Fclose(h); throw std::logic_error("bad defect " + defect); }
     H5Gclose(root);
     H5Fclose(h);
